@@ -119,7 +119,7 @@ def judge(fmt, msg, dsmax, logmax, env, known):
 def run_chunk(args):
     h, idx, dsmax, logmax, fmts, w = args
     env = envfor(dsmax)
-    lines = ['sinks pipe', 'lean 1'] + ['setenv %s %s' % (H.hx(k), H.hx(v)) for k, v in env.items()]
+    lines = ['sinks pipe', 'lean 1', 'errno -1'] + ['setenv %s %s' % (H.hx(k), H.hx(v)) for k, v in env.items()]
     for f in fmts:
         cfg = b'[snoopy]\ndatasource_message_max_length = %d\nlog_message_max_length = %d\noutput = file:%s/log\nmessage_format = %s\n' % (dsmax, logmax, w.encode(), f)
         lines.append('cfg ' + H.hx(cfg))
@@ -164,7 +164,7 @@ def template_tokens():
 def run_templates(args):
     h, kind, fmts, w = args
     env = {b'I1': b'Z' * 254, b'I2': b'Z' * 255, b'I3': b'Z' * 256}
-    lines = ['sinks pipe', 'lean 1', 'mkdir o'] + ['setenv %s %s' % (H.hx(k), H.hx(v)) for k, v in env.items()]
+    lines = ['sinks pipe', 'lean 1', 'errno -1', 'mkdir o'] + ['setenv %s %s' % (H.hx(k), H.hx(v)) for k, v in env.items()]
     for f in fmts:
         if kind == 'ident':
             cfg = b'[snoopy]\noutput = devlog\nmessage_format = M\nsyslog_ident = %s\n' % f
@@ -260,7 +260,7 @@ def deep_path_cases(ck, v):
             if total - len(d) >= 2:
                 d += '/' + 'c' * (total - len(d) - 1)
             cases.append((dsmax, total, d))
-    lines = ['sinks pipe', 'lean 1']
+    lines = ['sinks pipe', 'lean 1', 'errno -1']
     for dsmax, total, d in cases:
         os.makedirs(d, exist_ok=True)
         cfg = b'[snoopy]\ndatasource_message_max_length = %d\nmessage_format = M\noutput = file:%%{env:DEEPDIR}/f-%%{snoopy_literal:x}\n' % dsmax
@@ -307,7 +307,7 @@ def native_limit_phase(ck, v):
             for envs in ([b'A=' + b'x' * (total - 2)], [b'A=1', b'B=' + b'y' * (total - 6)], [b'K%02d=%s' % (i, b'z' * 10) for i in range((total + 14) // 15)]):
                 cases.append((dsmax, 'env_all', 'vars=%d:%d' % (len(envs), total), dict(env=envs), b','.join(envs)))
     w = os.path.join(ck.workdir, 'native')
-    lines = ['sinks pipe', 'lean 1']
+    lines = ['sinks pipe', 'lean 1', 'errno -1']
     for dsmax, ds, label, st, natural in cases:
         cfg = b'[snoopy]\ndatasource_message_max_length = %d\nlog_message_max_length = 100000\noutput = file:%s/log\nmessage_format = <%%{%s}>\n' % (dsmax, w.encode(), ds.encode())
         lines.append('cfg ' + H.hx(cfg))
